@@ -4,6 +4,7 @@ import (
 	"go/ast"
 	"go/token"
 	"go/types"
+	"sort"
 	"strings"
 
 	"verif/checker/fw"
@@ -19,6 +20,8 @@ func init() {
 			"the named-type dispatch covers the three input kinds and the five built-in scalars and the error renderer covers the same sets; list traversal descends into every element unconditionally; the validator's error slot is re-initialised on every Validate call before the walk; the engine plans only after variable validation succeeded (or there was no JSON object to validate). " +
 			"It does not decide accept ⇔ coercible for all (type, value) pairs.",
 		Mutants: []Mutant{
+			{Name: "Validate keeps the remap table of the previous request (the repaired defect F18)", File: varsValGo, Rule: "C06-R4", Key: "VariablesValidator.Validate/assigns-every-visitor-input",
+				Old: "\tv.visitor.variablesMap = nil\n", New: ""},
 			{Name: "provided values of input fields with a default are never checked (seeded change C06-11)", File: varsValGo, Rule: "C06-R6", Key: "traverseFieldDefinitionType/exit-checked-or-nothing-to-check",
 				Old: "\t\tif jsonValue == nil || jsonValue.Type() == astjson.TypeNull {\n\n\t\t\tif bytes.Equal(v.definition.TypeNameBytes(v.definition.Types[typeRef].OfType), []byte(\"Upload\")) {", New: "\t\tif v.definition.InputValueDefinitionHasDefaultValue(inputFieldRef) {\n\t\t\treturn\n\t\t}\n\t\tif jsonValue == nil || jsonValue.Type() == astjson.TypeNull {\n\n\t\t\tif bytes.Equal(v.definition.TypeNameBytes(v.definition.Types[typeRef].OfType), []byte(\"Upload\")) {"},
 			{Name: "new message interpolates the raw value", File: varsValGo, Rule: "C06-R1", Key: "renderVariableInvalidObjectTypeError",
@@ -35,7 +38,7 @@ func init() {
 				New: "\tcase ast.NodeKindUnionTypeDefinition:\n\t\tif jsonValue.Type() != astjson.TypeString {\n\t\t\tv.renderVariableInvalidNestedTypeError(jsonValue, fieldTypeDefinitionNode.Kind, typeName, false)\n\t\t\treturn\n\t\t}\n\t\tvalue := jsonValue.GetStringBytes()"},
 			{Name: "variables validated only when a remap exists", File: execEngineGo, Rule: "C06-R3", Key: "vars-ok",
 				Old: "\tif len(operation.Variables) > 0 && operation.Variables[0] == '{' {\n\t\tvalidator :=", New: "\tif len(operation.Variables) > 0 && operation.Variables[0] == '{' && remapVariables != nil {\n\t\tvalidator :="},
-			{Name: "validator error slot not reset between requests", File: varsValGo, Rule: "C06-R4", Key: "Validate",
+			{Name: "validator error slot not reset between requests", File: varsValGo, Rule: "C06-R4", Key: "err-reset-before-walk",
 				Old: "\tv.visitor.variables, v.visitor.err = astjson.ParseBytes(variables)\n\tif v.visitor.err != nil {\n\t\treturn v.visitor.err\n\t}\n", New: "\tparsed, perr := astjson.ParseBytes(variables)\n\tif perr != nil {\n\t\treturn perr\n\t}\n\tv.visitor.variables = parsed\n"},
 			{Name: "null list items skipped before descending", File: varsValGo, Rule: "C06-R5", Key: "traverseFieldDefinitionType",
 				Old: "\t\tfor i, arrayValue := range jsonValue.GetArray() {\n\t\t\tv.pushArrayPath(i)\n", New: "\t\tfor i, arrayValue := range jsonValue.GetArray() {\n\t\t\tif arrayValue.Type() == astjson.TypeNull {\n\t\t\t\tcontinue\n\t\t\t}\n\t\t\tv.pushArrayPath(i)\n"},
@@ -256,28 +259,103 @@ func runC06(r *fw.Run) {
 	engineAdmission(r, "C06-R3", true)
 
 	// ---- R4 per-call state ---------------------------------------------------------------------------
-	r.Rule("C06-R4", "VariablesValidator.Validate (re)assigns the visitor's error slot on every path before it runs the walker")
-	if fi := p.Func("varsvalidation", "VariablesValidator.Validate"); fi == nil {
-		r.Error("C06-R4: VariablesValidator.Validate not found")
-	} else {
+	r.Rule("C06-R4", "the VariablesValidator (re)assigns the visitor's error slot on every path before it runs the walker, and every public entry point hands the reused visitor a complete set of inputs")
+	{
 		n := 0
-		in := fw.NewInterp(fi)
-		in.H = fw.Hooks{Node: func(nd ast.Node, st *fw.State) {
-			for _, t := range fw.WriteTargets(info, nd) {
-				if fw.IsFieldSel(info, t, "varsvalidation", "variablesVisitor", "err") {
-					st.Set("err-reset")
+		for _, fi := range p.Funcs("varsvalidation") {
+			if fi.Decl.Recv == nil || !strings.HasPrefix(fi.Name(), "VariablesValidator.") {
+				continue
+			}
+			in := fw.NewInterp(fi)
+			in.H = fw.Hooks{Node: func(nd ast.Node, st *fw.State) {
+				for _, t := range fw.WriteTargets(info, nd) {
+					if fw.IsFieldSel(info, t, "varsvalidation", "variablesVisitor", "err") {
+						st.Set("err-reset")
+					}
 				}
-			}
-			if c, ok := nd.(*ast.CallExpr); ok && in.Final() && fw.CallIs(info, c, "astvisitor", "Walker.Walk") {
-				n++
-				r.Check(st.Must("err-reset"), "C06-R4", "VariablesValidator.Validate/err-reset-before-walk", p.Pos(c.Pos()), "the error slot of the reused visitor is assigned before the walk",
-					"the walk starts with whatever error the previous request left in the visitor: after one rejected request a reused validator rejects every later request with the earlier request's variable name, path and content")
-			}
-		}}
-		in.Run(nil)
-		r.Expect("C06-R4", "walks in Validate", n, 1)
+				if c, ok := nd.(*ast.CallExpr); ok && in.Final() && fw.CallIs(info, c, "astvisitor", "Walker.Walk") {
+					n++
+					r.Check(st.Must("err-reset"), "C06-R4", fi.Name()+"/err-reset-before-walk", p.Pos(c.Pos()), "the error slot of the reused visitor is assigned before the walk",
+						"the walk starts with whatever error the previous request left in the visitor: after one rejected request a reused validator rejects every later request with the earlier request's variable name, path and content")
+				}
+			}}
+			in.Run(nil)
+		}
+		r.Expect("C06-R4", "walks of the variables validator", n, 1)
 	}
 	wiringObligations(r, "C06-R4", "varsvalidation", nil)
+
+	// every public entry point hands the visitor a complete, fresh set of inputs (added after a sub-agent's observation: Validate
+	// after ValidateWithRemap kept the previous request's remap table)
+	{
+		universe := map[string]bool{}
+		assigned := map[*types.Func]map[string]bool{}
+		calls := map[*types.Func][]*types.Func{}
+		walks := map[*types.Func]bool{}
+		var methods []*fw.FuncInfo
+		for _, fi := range p.Funcs("varsvalidation") {
+			if fi.Decl.Recv == nil || !strings.HasPrefix(fi.Name(), "VariablesValidator.") {
+				continue
+			}
+			methods = append(methods, fi)
+			assigned[fi.Obj] = map[string]bool{}
+			fw.WalkAll(fi.Decl.Body, func(nd ast.Node) bool {
+				for _, t := range fw.WriteTargets(info, nd) {
+					if v, sel := fw.Field(info, t); v != nil {
+						if _, tn := fw.FieldOwner(info, sel); tn == "variablesVisitor" {
+							assigned[fi.Obj][v.Name()] = true
+							universe[v.Name()] = true
+						}
+					}
+				}
+				if c, ok := nd.(*ast.CallExpr); ok {
+					if fn := fw.Callee(info, c); fn != nil {
+						if fw.FuncIs(fn, "astvisitor", "Walker.Walk") {
+							walks[fi.Obj] = true
+						}
+						if sig, _ := fn.Type().(*types.Signature); sig != nil && sig.Recv() != nil && fw.RecvName(sig.Recv().Type()) == "VariablesValidator" {
+							calls[fi.Obj] = append(calls[fi.Obj], fn)
+						}
+					}
+				}
+				return true
+			})
+		}
+		for changed := true; changed; {
+			changed = false
+			for _, fi := range methods {
+				for _, callee := range calls[fi.Obj] {
+					if walks[callee] && !walks[fi.Obj] {
+						walks[fi.Obj] = true
+						changed = true
+					}
+					for f := range assigned[callee] {
+						if !assigned[fi.Obj][f] {
+							assigned[fi.Obj][f] = true
+							changed = true
+						}
+					}
+				}
+			}
+		}
+		nEntry := 0
+		for _, fi := range methods {
+			if !fi.Obj.Exported() || !walks[fi.Obj] {
+				continue
+			}
+			nEntry++
+			var missing []string
+			for f := range universe {
+				if !assigned[fi.Obj][f] {
+					missing = append(missing, f)
+				}
+			}
+			sort.Strings(missing)
+			r.Check(len(missing) == 0, "C06-R4", fi.Name()+"/assigns-every-visitor-input", fi.Pos(), fi.Name()+" (re)assigns every input of the reused visitor that any entry point sets",
+				"this entry point walks with whatever the previous call left in: "+strings.Join(missing, ", ")+" — e.g. Validate after ValidateWithRemap looks the variables up through the previous request's remap table: a coercible request is rejected (or a bad value accepted) depending on what was validated before")
+		}
+		r.Expect("C06-R4", "public entry points of VariablesValidator that walk", nEntry, 2)
+	}
 
 	// ---- R5 list traversal -----------------------------------------------------------------------------
 	r.Rule("C06-R5", "list traversal descends into every element: in traverseOperationType and traverseFieldDefinitionType the loop over the JSON array calls the recursive traversal unconditionally")
